@@ -13,7 +13,9 @@ import os
 import random
 import re
 
-from . import fextract, fortran, fprofile, gen, progs, stepper, tlc
+import json
+
+from . import common, fextract, fortran, fprofile, gen, progs, stepper, tlc
 from .common import NCPU, sample
 
 LEVEL = "model_checking"
@@ -321,6 +323,9 @@ def run(chk):
     accepted = {t[1] for t in tout["ACC"]}
     if len(accepted) != len(tcs_clean):
         k = [i for i in range(len(tcs_clean)) if i not in accepted][0]
+        os.makedirs(os.path.join(common.VERIF, "replays", "C12"), exist_ok=True)
+        with open(os.path.join(common.VERIF, "replays", "C12", "rejected_marker_trace.json"), "w") as f:
+            json.dump({kk: tcs_clean[k][kk] for kk in tkeys}, f)
         raise tlc.MachineryError("marker trace of a real run is not a behaviour of the extracted skeleton (extractor or heap "
                                  "model misrepresents the generated code): %d runs, log %s" % (tcs_clean[k]["nruns"], tcs_clean[k]["log"][:12]))
     chk.stage("marker_traces")
